@@ -22,6 +22,7 @@
 
 from typing import Dict, List, Optional, Union
 
+from .._dns import DNSAddress
 from .._exceptions import ServiceNameAlreadyRegistered
 from .info import ServiceInfo
 
@@ -35,7 +36,7 @@ class ServiceRegistry:
     the event loop as it is not thread safe.
     """
 
-    __slots__ = ("_services", "types", "servers", "has_entries")
+    __slots__ = ("_services", "types", "servers", "has_entries", "_advertised_addresses")
 
     def __init__(
         self,
@@ -45,6 +46,10 @@ class ServiceRegistry:
         self.types: Dict[str, List] = {}
         self.servers: Dict[str, List] = {}
         self.has_entries: bool = False
+        # The address records each service had when it was put into the registry,
+        # with a TTL of 0 (what it takes to withdraw them): a ServiceInfo that is
+        # changed in place and handed in again cannot tell
+        self._advertised_addresses: Dict[str, List[DNSAddress]] = {}
 
     def async_add(self, info: ServiceInfo) -> None:
         """Add a new service to the registry."""
@@ -66,6 +71,10 @@ class ServiceRegistry:
     def async_get_info_name(self, name: str) -> Optional[ServiceInfo]:
         """Return all ServiceInfo for the name."""
         return self._services.get(name)
+
+    def async_get_advertised_addresses(self, name: str) -> List[DNSAddress]:
+        """Return the address records the service had when it was added or last updated, with a TTL of 0."""
+        return self._advertised_addresses.get(name, [])
 
     def async_get_types(self) -> List[str]:
         """Return all types."""
@@ -94,6 +103,7 @@ class ServiceRegistry:
 
         info.async_clear_cache()
         self._services[info.key] = info
+        self._advertised_addresses[info.key] = info.dns_addresses(override_ttl=0)
         self.types.setdefault(info.type.lower(), []).append(info.key)
         self.servers.setdefault(info.server_key, []).append(info.key)
         self.has_entries = True
@@ -116,5 +126,6 @@ class ServiceRegistry:
             if not self.servers[server_key]:
                 del self.servers[server_key]
             del self._services[info.key]
+            del self._advertised_addresses[info.key]
 
         self.has_entries = bool(self._services)
